@@ -10,7 +10,7 @@ import re._constants as sre_c  # type: ignore
 import re._parser as sre_parse  # type: ignore
 
 from sa.cfg import CFG, edges_establishing
-from sa.model import AnalysisError, Program, norm, walk_no_nested
+from sa.model import AnalysisError, Program, alpha, norm, walk_no_nested
 from sa.report import Results
 from sa.util import assignments_to, callee, dotted, is_const, strip_not, exc_name
 
@@ -371,7 +371,7 @@ def check_reader(prog: Program, res: Results, rid: str) -> None:
     # escape arm: `if escape:` inside `if in_quotes:` inside the for loop
     esc_if = None
     for n in walk_no_nested(pf.node):
-        if isinstance(n, ast.If) and isinstance(n.test, ast.Name) and n.test.id == "escape" and any(isinstance(s, ast.If) for s in n.body):
+        if isinstance(n, ast.If) and isinstance(n.test, ast.Name) and any(isinstance(s, ast.If) and "== 'n'" in norm(s.test) for s in n.body):
             esc_if = n
     if esc_if is None:
         res.unclass("_parse_npath: escape arm not found")
@@ -405,7 +405,7 @@ def check_reader(prog: Program, res: Results, rid: str) -> None:
             res.add(rid, ("_parse_npath", "escape", "\\" + k), pf.loc(chain),
                     f"the NPath reader decodes \\{k} to {table.get(k)!r}, documented {v!r}")
     # the escape flag is cleared after one character
-    clears = [s for s in esc_if.body if isinstance(s, ast.Assign) and norm(s) == "escape = False"]
+    clears = [s for s in esc_if.body if isinstance(s, ast.Assign) and norm(s) == f"{esc_if.test.id} = False"]
     ok = bool(clears)
     r.ob(ok, {"escape_flag_cleared": ok})
     if not ok:
@@ -460,8 +460,9 @@ def check_segment_state(prog: Program, res: Results) -> None:
                     f"every normal exit of finalize_segment: it leaks into the next segment of the same path")
     # dots split only outside quotes: the `ch == "."` test must be dominated by the false edge of `if in_quotes`
     lcfg = CFG(pf.node)
-    dot_tests = [n for n in lcfg.nodes if n.kind == "test" and norm(n.ast) == "ch == '.'"]
-    quote_tests = [n for n in lcfg.nodes if n.kind == "test" and norm(n.ast) == "in_quotes" and n.stmt in loop.body]
+    chv = loop.target.id if isinstance(loop.target, ast.Name) else "ch"
+    dot_tests = [n for n in lcfg.nodes if n.kind == "test" and norm(n.ast) == f"{chv} == '.'"]
+    quote_tests = [n for n in lcfg.nodes if n.kind == "test" and isinstance(n.ast, ast.Name) and getattr(n, "stmt", None) in loop.body]
     r.instances += len(dot_tests)
     for d in dot_tests:
         ok = bool(quote_tests) and lcfg.all_paths_pass(d, cut_edges=[(q, False) for q in quote_tests])
@@ -475,9 +476,14 @@ def check_segment_state(prog: Program, res: Results) -> None:
         ok = exc_name(rs.exc) == "ValueError"
         r.ob(ok, {"raise": norm(rs)[:70]})
         if not ok:
-            res.add("R-C12-4", ("_parse_npath", "raise type", norm(rs)[:60]), pf.loc(rs),
+            res.add("R-C12-4", ("_parse_npath", "raise type", alpha(rs, pf.node)[:60]), pf.loc(rs),
                     "a malformed path is rejected with something other than ValueError")
-    need = {"dangling escape": "escape", "unterminated": "in_quotes"}
+    quote_var = quote_tests[0].ast.id if quote_tests else "in_quotes"
+    esc_var = None
+    for n in ast.walk(loop):
+        if isinstance(n, ast.If) and isinstance(n.test, ast.Name) and any(isinstance(s_, ast.If) and "== 'n'" in norm(s_.test) for s_ in n.body):
+            esc_var = n.test.id
+    need = {"dangling escape": esc_var or "escape", "unterminated": quote_var}
     for what, var in need.items():
         ok = any(isinstance(n, ast.If) and isinstance(n.test, ast.Name) and n.test.id == var and n in pf.node.body
                  and any(isinstance(s, ast.Raise) for s in n.body) for n in pf.node.body)
